@@ -574,12 +574,15 @@ pub fn cgr_record_sets() -> Vec<(&'static str, Vec<Vec<u8>>)> {
     let mut lf = vec![fill(b"ACGGTCA", 200_000)];
     lf.extend(strings(S4, 1, 2).into_iter().take(6));
     sets.push(("long-first", lf));
+    sets.push(("empty-last", vec![b"ACG".to_vec(), b"ACGTACGTAC".to_vec(), b"".to_vec()]));
+    sets.push(("empty-last-2", vec![b"ACGTACGTAC".to_vec(), b"ACG".to_vec(), b"".to_vec(), b"".to_vec()]));
     sets.push(("bad-second", vec![b"ACG".to_vec(), b"ANG".to_vec(), b"T".to_vec()]));
     sets.push(("bad-last", vec![b"ACG".to_vec(), b"TT".to_vec(), b"TTx".to_vec()]));
     sets
 }
 
 pub fn c11(ctx: &mut Ctx) {
+    cgr_reuse(ctx, false);
     let comps: Vec<(usize, CgrComputer)> = CGR_SIZES.iter().map(|&s| (s, CgrComputer::new("-".into(), "-".into(), s))).collect();
     // clean strings
     let l = ctx.pick(10, 13);
@@ -802,7 +805,106 @@ fn c12_file(ctx: &mut Ctx, records: &[Vec<u8>], k: usize, s_size: usize, norm: b
     ctx.rep.nontrivial += 1;
 }
 
+/// One OligoCgrComputer / CgrComputer object, several runs with settings changed through the setters in between.
+fn cgr_reuse_sequence(ctx: &mut Ctx, kmer_mode: bool, steps: &[&str]) {
+    let inp = format!("{}/cgrr_in.fa", ctx.scratch);
+    let outp = format!("{}/cgrr_out.txt", ctx.scratch);
+    let records: Vec<Vec<u8>> = if kmer_mode { vec![b"ACGTNAC".to_vec(), b"".to_vec(), b"GGGTTTA".to_vec(), b"AC".to_vec()] } else { vec![b"ACGT".to_vec(), b"".to_vec(), b"GGu".to_vec(), b"a".to_vec()] };
+    write_fasta(&inp, &records);
+    let _ = std::fs::remove_file(&outp);
+    let argv = {
+        let mut a = vec!["case".to_string(), if kmer_mode { "C12reuse".to_string() } else { "C11reuse".to_string() }];
+        a.extend(steps.iter().map(|s| s.to_string()));
+        a
+    };
+    ctx.journal.note(|| format!("cgr reuse {:?}", argv));
+    ctx.rep.evaluations += 1;
+    let k = 2usize;
+    let mut kc = OligoCgrComputer::new(inp.clone(), outp.clone(), k, 16);
+    let mut wc = CgrComputer::new(inp.clone(), outp.clone(), 16);
+    let mut norm = true;
+    let what = format!("one {} object driven through {:?}, a run after every step", if kmer_mode { "OligoCgrComputer" } else { "CgrComputer" }, steps);
+    for (i, step) in std::iter::once(&"run").chain(steps.iter()).enumerate() {
+        match *step {
+            "raw" => {
+                kc.set_norm(false);
+                norm = false;
+            }
+            "norm" => {
+                kc.set_norm(true);
+                norm = true;
+            }
+            "threads1" => {
+                kc.set_threads(1);
+                wc.set_threads(1);
+            }
+            "threads4" => {
+                kc.set_threads(4);
+                wc.set_threads(4);
+            }
+            "mem-low" => {
+                kc.verif_set_max_memory(3);
+                wc.verif_set_max_memory(3);
+            }
+            "mem-high" => {
+                kc.verif_set_max_memory(4 << 30);
+                wc.verif_set_max_memory(4 << 30);
+            }
+            _ => {}
+        }
+        let r = guard(|| if kmer_mode { kc.vectorise() } else { wc.vectorise() });
+        match r {
+            Err(p) => return viol(ctx, "panic", steps.len() * 10 + i, format!("{what}: run {i} panicked: {p}"), argv),
+            Ok(Err(e)) => return viol(ctx, "error", steps.len() * 10 + i, format!("{what}: run {i}: {e}"), argv),
+            Ok(Ok(())) => {}
+        }
+        let text = std::fs::read_to_string(&outp).unwrap_or_default();
+        let lines: Vec<&str> = text.split('\n').collect();
+        let lines = if lines.last() == Some(&"") { &lines[..lines.len() - 1] } else { &lines[..] };
+        if lines.len() != records.len() {
+            return viol(ctx, "row-count", steps.len() * 10 + i, format!("{what}: run {i} (after {:?}): {} rows for {} records", step, lines.len(), records.len()), argv);
+        }
+        for (ri, rec) in records.iter().enumerate() {
+            let exp = if kmer_mode {
+                let mut fresh = OligoCgrComputer::new("-".into(), "-".into(), k, 16);
+                fresh.set_norm(norm);
+                fresh.verif_vectorise_one(rec).unwrap().iter().map(|v| format!("({},{},{})", v.0 .0, v.0 .1, v.1)).collect::<Vec<_>>().join(" ")
+            } else {
+                cgr_row(&CgrComputer::new("-".into(), "-".into(), 16).verif_vectorise_one(rec).unwrap())
+            };
+            if lines[ri] != exp {
+                return viol(ctx, "row-order-or-value", steps.len() * 10 + i, format!("{what}: run {i} (after {:?}): row {ri} is {:?}, a fresh computer with the same settings gives {:?}", step, &lines[ri][..lines[ri].len().min(60)], &exp[..exp.len().min(60)]), argv);
+            }
+        }
+    }
+    ctx.rep.nontrivial += 1;
+}
+
+pub fn cgr_reuse(ctx: &mut Ctx, kmer_mode: bool) {
+    let alphabet: &[&str] = if kmer_mode { &["raw", "norm", "threads1", "threads4", "mem-low", "mem-high", "run"] } else { &["threads1", "threads4", "mem-low", "mem-high", "run"] };
+    let mut sh = ctx.shard;
+    let mut n = 0u64;
+    for a in alphabet {
+        for b in alphabet {
+            if sh.mine() {
+                cgr_reuse_sequence(ctx, kmer_mode, &[a, b]);
+                n += 1;
+            }
+            if ctx.thorough() {
+                for c in alphabet {
+                    if sh.mine() {
+                        cgr_reuse_sequence(ctx, kmer_mode, &[a, b, c]);
+                        n += 1;
+                    }
+                }
+            }
+        }
+    }
+    ctx.rep.count("cases.object_reuse_sequences", n);
+}
+
 pub fn c12(ctx: &mut Ctx) {
+    cgr_reuse(ctx, true);
     let sizes = [1usize, 4, 16, 49, 1 << 20];
     let small: Vec<Vec<u8>> = strings(S5, 0, ctx.pick(6, 8));
     let ps = strings(S5, 0, 2);
@@ -919,6 +1021,10 @@ pub fn replay(ctx: &mut Ctx, args: &[String]) {
         "C04" => {
             let k: usize = args[2].parse().unwrap();
             c04_one(ctx, &oligo_set(k), "replay", &unhex(&args[1]), true)
+        }
+        "C11reuse" | "C12reuse" => {
+            let steps: Vec<&str> = args[1..].iter().map(|s| s.as_str()).collect();
+            cgr_reuse_sequence(ctx, args[0] == "C12reuse", &steps);
         }
         "C04long" => {
             let long_set: Vec<Vec<u8>> = vec![crate::iters::long_input(70_000, 4), b"ACGU".to_vec(), crate::iters::long_input(66_000, 9), crate::iters::long_input(4097, 1), b"".to_vec(), crate::iters::long_input(140_000, 12)];
